@@ -76,13 +76,14 @@ Print Assumptions c15_restart_keeps_stores.
 
 (* ... so what c15_outage_reads says (for every state) holds across restarts; put together: after a
    completed copy and the primary going out in whichever way, ANY sequence of restarts, reads, requests
-   (refused or served) and further changes of the kind of outage — anything but a copy, the purge, a
+   (refused or served) and further changes of the kind of outage — anything but a copy (alone or as a turn of
+   the background copier), the purge, a
    write-through of a signed record or the primary coming back — every load is answered from the cache
    with what the primary held when the copy completed. *)
 Theorem c15_restart_outage_reads : forall ops f s' k w tail u,
   step (final ops) (Sync f) = (s', OSync true) ->
   Forall (fun o => match o with
-                   | Sync _ | Cleanup | Upsert _ _ _ _ | DelSigned _ _ | SetMode Up => False
+                   | Sync _ | Copier _ | Cleanup | Upsert _ _ _ _ | DelSigned _ _ | SetMode Up => False
                    | _ => True
                    end) tail ->
   snd (step (fst (run s' (SetMode (Out k w) :: tail))) (Load u)) =
@@ -92,6 +93,28 @@ Theorem c15_restart_outage_reads : forall ops f s' k w tail u,
   end.
 Proof. exact restart_outage_reads. Qed.
 Print Assumptions c15_restart_outage_reads.
+
+(* The background copier (BackgroundDBCopy): one turn of its loop is the copy followed by the purge of
+   both stores; what the turn reports (to the log) is what the copy returned. *)
+Theorem c15_copier_turn : forall s f,
+  step s (Copier f) = (fst (step (fst (step s (Sync f))) Cleanup), snd (step s (Sync f))).
+Proof. exact step_copier. Qed.
+Print Assumptions c15_copier_turn.
+
+(* The cache is never more than one completed copy behind.  Along ANY history — saves, deletions, turns
+   of the copier whenever the history lets it run, with or without faults of any kind, purges, outages,
+   restarts, requests — carry a ghost: the user profiles the primary held when the last copy completed
+   (run_ghost; empty before the first).  At every moment the cache's user profiles are exactly that ghost:
+   nothing but a completed copy changes them, and a completed copy makes them the primary's. *)
+Theorem c15_copier_lag : forall ops u,
+  aget ukey_eqb u (profiles (cache (fst (run_ghost init [] ops)))) = aget ukey_eqb u (snd (run_ghost init [] ops)).
+Proof. exact copier_lag. Qed.
+Print Assumptions c15_copier_lag.
+
+(* (run_ghost runs the same machine: its state is the history's final state) *)
+Theorem c15_ghost_is_run : forall ops, fst (run_ghost init [] ops) = final ops.
+Proof. intro ops. apply run_ghost_final. Qed.
+Print Assumptions c15_ghost_is_run.
 
 (* While the primary does not answer reads — in WHICHEVER way: the query hangs past the
    deadline (RHang), the statement cannot even be prepared (RPrepare: connection refused, closed
@@ -138,7 +161,8 @@ Qed.
 Print Assumptions c15_outage_writes.
 
 Theorem c15_dead_frozen : forall s o, writable s = false -> (forall m, o <> SetMode m) ->
-  primary (fst (step s o)) = primary s /\ (o <> Cleanup -> cache (fst (step s o)) = cache s).
+  primary (fst (step s o)) = primary s /\
+  (o <> Cleanup -> (forall f, o <> Copier f) -> cache (fst (step s o)) = cache s).
 Proof. exact dead_frozen. Qed.
 Print Assumptions c15_dead_frozen.
 
@@ -301,6 +325,17 @@ Example c15_restart_history :
   [OOk; OOk; OSync true; OOk; OOk; OOk; OLoad true true 10; OOk; OLoad true true 10; OSigned true 5; OUsers true [1];
    OOk; OOk; OLoad true false 11].
 Proof. vm_compute. reflexivity. Qed.
+
+(* the copier over a history: two saves, a turn, a change, a faulted turn (old content stays, the ghost too),
+   a clean turn; an expired record is purged by the turn *)
+Example c15_copier_history :
+  let ops := [Save 1 10; Upsert 1 1 5 50%Z; Copier None; Save 1 11; Save 2 20; Copier (Some (F 9 KBusy true)); Tick 100%Z] in
+  let '(s, g) := run_ghost init [] ops in
+  g = [(1, 10)] /\ profiles (cache s) = [(1, 10)] /\ signed (cache s) = [((1, 1), mk_srow 5 50%Z 0%Z)] /\
+  let '(s', g') := run_ghost init [] (ops ++ [Copier None]) in
+  same_map ukey_eqb N.eqb g' [(1, 11); (2, 20)] = true /\ same_db (cache s') (mk_db [(1, 11); (2, 20)] []) = true /\
+  signed (primary s') = [].
+Proof. vm_compute. repeat split; reflexivity. Qed.
 
 (* every kind of outage: the reads come from the cache, the mutation is refused, the second-factor
    check is served and stores nothing *)
